@@ -641,15 +641,22 @@ def write_bam(path, chrom_lens, reads):
     header = {"HD": {"VN": "1.6", "SO": "coordinate"},
               "SQ": [{"SN": c, "LN": l} for c, l in chrom_lens]}
     tid = {c: i for i, (c, l) in enumerate(chrom_lens)}
-    mapped = [r for r in reads if not (r.flag & 4)]
-    unmapped = [r for r in reads if r.flag & 4]
+    # an unmapped record (flag 4) that names a sequence is a PLACED unmapped record (SAM: RNAME/POS set, e.g. next to its mate, CIGAR '*'):
+    # it is sorted with the alignments and returned by fetch()
+    mapped = [r for r in reads if not (r.flag & 4) or r.chrom is not None]
+    unmapped = [r for r in reads if r.flag & 4 and r.chrom is None]
     mapped.sort(key=lambda r: (tid[r.chrom], r.pos0))
     with pysam.AlignmentFile(path, "wb", header=header) as out:
         for r in mapped + unmapped:
             a = pysam.AlignedSegment(out.header)
             a.query_name = r.name
             a.flag = r.flag
-            if r.flag & 4:
+            if r.flag & 4 and r.chrom is not None:
+                a.reference_id = tid[r.chrom]
+                a.reference_start = r.pos0
+                a.query_sequence = r.seq or "ACGTACGTAC"
+                a.mapping_quality = 0
+            elif r.flag & 4:
                 a.reference_id = -1
                 a.reference_start = -1
                 a.query_sequence = r.seq or "ACGTACGTAC"
